@@ -26,3 +26,8 @@ add('C05', 'other',
     'Only the C-binding clause is decided: the real Teakra_Disasm_Do (LLVM IR of src/disassembler_c.cpp) is executed symbolically for every buffer size 0..N+2 against an arbitrary text (symbolic length <= N, symbolic bytes) returned by a stub of Disassembler::Do; SMT proves: returns the length, writes nothing outside dst[0..dstlen), dst holds the text truncated to dstlen-1 characters followed by NUL, NULL dst is untouched. The other clauses of C05 are not claimed.',
     'NOT decided: disassembler/assembler token round trip, injectivity of printed text, Do == join(tokens), firmware assembly (std::string / stringstream / unordered_map<variant> code is outside what llsym can encode; enumerating 65536 concrete renderings would not be a solver verdict). N = 24 quick / 112 thorough (longest rendered text is 104 characters). std::string accessors are modelled on the {pointer,length} representation.',
     'symbolic execution of LLVM IR + SMT over symbolic text and all buffer sizes (bounded)', 'DESIGN.md section 2 C05, section 3')
+
+add('C02', 'model_checking',
+    'The three decode tables are built by executing the real GetDecodeTable<V>() inside the symbolic executor; on them SMT decides: the real Matcher::Matches IR equals the mask/expected/rejector predicate of each of the 443 rows, at most one row matches any 16-bit word, the real Decode<Interpreter>(o) returns row i for every o in row i with its uniqueness ASSERT unreachable, the Disassembler and TestGenerator tables are row-for-row identical to the interpreter table, Interpreter::Run reads exactly 1+expanded program words and hands pmem[pc+1] to the handler (never fetching it as an instruction), and flipping an Unused<k> bit changes neither matching nor registers/memory/exit class of the instruction.',
+    'Quick tier runs Decode<> on rows with EXCEPT clauses plus a seeded sample (thorough: all rows). Run scaffold assumes prpage==0, rep==0, pc<0x3FFFE. Unused<k> positions are read from decoder.h text. Not decided: the assembler (parser.cpp) seeing the same form. Table extraction validated each run against the natively compiled table on all 65536 opcodes.',
+    'symbolic execution of LLVM IR of the real decoder + SMT (16-bit opcode fully symbolic)', 'DESIGN.md section 2 C02')
